@@ -45,6 +45,16 @@ static void c12_setup(const ref_cfg_t *c, enum htp_decoder_ctx_t ctx, unsigned c
     C12_UNWANTED_OK((c).control_chars_unwanted) && C12_UNWANTED_OK((c).u_encoding_unwanted) && \
     C12_HANDLING_OK((c).url_encoding_invalid_handling) && C12_UNWANTED_OK((c).url_encoding_invalid_unwanted) && \
     C12_UNWANTED_OK((c).nul_encoded_unwanted) && C12_UNWANTED_OK((c).utf8_invalid_unwanted))
+/* best-fit map used by a bounded unit: MAPK > 0: a SYMBOLIC map of up to MAPK triples (any content, forced 00 00
+ * terminator in the last triple; an earlier 00 00 simply ends it sooner); MAPK == 0: the real bestfit_1252 of
+ * htp_config.c (which must then be part of the translation unit) */
+#if defined(MAPK) && MAPK > 0
+#define C12_MAP in.map
+#define C12_MAP_SETUP do { in.map[3 * MAPK] = 0; in.map[3 * MAPK + 1] = 0; } while (0)
+#else
+#define C12_MAP bestfit_1252
+#define C12_MAP_SETUP do { } while (0)
+#endif
 /* the reference's indicator bits are the library's */
 #define C12_FLAGS_AGREE (RF_PATH_ENCODED_NUL == HTP_PATH_ENCODED_NUL && RF_PATH_RAW_NUL == HTP_PATH_RAW_NUL && \
     RF_PATH_INVALID_ENCODING == HTP_PATH_INVALID_ENCODING && RF_PATH_OVERLONG_U == HTP_PATH_OVERLONG_U && \
